@@ -46,7 +46,7 @@ static uint64_t fnv(const char* p, size_t n)
 	return h;
 }
 /* replace the text appended since `from` by #len:hash when longer than lim */
-static int g_full = 0;
+static __thread int g_full = 0;
 static void sb_squash(SB* s, size_t from, size_t lim)
 {
 	size_t len = s->n - from;
@@ -66,7 +66,7 @@ static void sb_hex(SB* s, const unsigned char* b, size_t n)
 	for (i = 0; i < n; ++i) { s->p[s->n++] = d[b[i] >> 4]; s->p[s->n++] = d[b[i] & 15]; }
 	s->p[s->n] = 0;
 }
-static size_t OBJ_LIM = 256, HEX_LIM = 512;
+static const size_t OBJ_LIM = 256, HEX_LIM = 512;
 static void sb_hexq(SB* s, const unsigned char* b, size_t n) { size_t f = s->n; sb_hex(s, b, n); sb_squash(s, f, HEX_LIM); }
 
 /* ------------------------------------------------------------------ tokens */
@@ -88,8 +88,8 @@ static unsigned char* unhex(const char* s, int* len)
 static char* nxname(Toks* k) { int l; return (char*)unhex(nx(k), &l); }
 
 /* ------------------------------------------------------------------ scratch files */
-static FILE* g_f;   /* stream under test */
-static FILE* g_w;   /* side stream for dumps (sbdf_va_write of a value array) */
+static __thread FILE* g_f;   /* stream under test */
+static __thread FILE* g_w;   /* side stream for dumps (sbdf_va_write of a value array) */
 static void f_reset(FILE* f) { rewind(f); if (ftruncate(fileno(f), 0)) exit(5); }
 static void f_load(FILE* f, const unsigned char* b, size_t n) { f_reset(f); if (n) fwrite(b, 1, n, f); fflush(f); rewind(f); }
 static unsigned char* f_slurp(FILE* f, size_t* n)
@@ -540,8 +540,8 @@ done:
 /* ------------------------------------------------------------------ scenarios */
 
 /* memory-backed stream for the numeric digests (no system calls per value) */
-static FILE* g_m;
-static unsigned char g_mbuf[64];
+static __thread FILE* g_m;
+static __thread unsigned char g_mbuf[64];
 static void sc_c16_one(SB* s, unsigned int n)
 {
 	long k;
@@ -935,64 +935,117 @@ static void sc_fw(SB* s, Toks* k)
 }
 
 /* ------------------------------------------------------------------ main loop */
+static void process_line(char* line, SB* s)
+{
+	Toks k;
+	char* p;
+	char* save = 0;
+	const char* kind;
+	int ntok = 0, captok = 64;
+	size_t len = strlen(line);
+	while (len > 0 && (line[len - 1] == '\n' || line[len - 1] == '\r')) line[--len] = 0;
+	if (!g_f)
+	{
+		g_f = tmpfile();
+		g_w = tmpfile();
+		if (!g_f || !g_w) { perror("tmpfile"); exit(5); }
+	}
+	k.t = malloc(sizeof(char*) * (size_t)captok);
+	for (p = strtok_r(line, " ", &save); p; p = strtok_r(0, " ", &save))
+	{
+		if (ntok == captok) { captok *= 2; k.t = realloc(k.t, sizeof(char*) * (size_t)captok); }
+		k.t[ntok++] = p;
+	}
+	k.n = ntok; k.i = 0;
+	s->n = 0;
+	sb_puts(s, "");
+	g_full = 0;
+	if (ntok == 0) { free(k.t); return; }
+	kind = nx(&k);
+	/* optional prefixes */
+	while (!strncmp(kind, "cap=", 4) || !strcmp(kind, "full"))
+	{
+		if (kind[0] == 'c') vf_cap = (size_t)strtoul(kind + 4, 0, 10);
+		else g_full = 1;
+		kind = nx(&k);
+	}
+	if (!strcmp(kind, "c16")) sc_c16(s, &k);
+	else if (!strcmp(kind, "c16d")) sc_c16d(s, &k);
+	else if (!strcmp(kind, "r7")) sc_r7(s, &k);
+	else if (!strcmp(kind, "strcmp")) sc_strcmp(s, &k);
+	else if (!strcmp(kind, "strmk")) sc_strmk(s, &k);
+	else if (!strcmp(kind, "objeq")) sc_objeq(s, &k);
+	else if (!strcmp(kind, "u2i")) sc_conv(s, &k, 1);
+	else if (!strcmp(kind, "i2u")) sc_conv(s, &k, 0);
+	else if (!strcmp(kind, "errstr")) sc_errstr(s, &k);
+	else if (!strcmp(kind, "va")) sc_va(s, &k);
+	else if (!strcmp(kind, "varead")) sc_varead(s, &k);
+	else if (!strcmp(kind, "md")) sc_md(s, &k);
+	else if (!strcmp(kind, "rt")) sc_rt(s, &k, 0);
+	else if (!strcmp(kind, "rtw")) sc_rt(s, &k, 1);
+	else if (!strcmp(kind, "fr")) sc_fr(s, &k, 0);
+	else if (!strcmp(kind, "frw")) sc_fr(s, &k, 1);
+	else if (!strcmp(kind, "fw")) sc_fw(s, &k);
+	else { fprintf(stderr, "harness: unknown scenario %s\n", kind); exit(4); }
+	free(k.t);
+}
+
+/* --threads K : all lines are read first, thread t runs lines t, t+K, ... concurrently on its
+   own streams and objects; outputs are printed in input order */
+#include <pthread.h>
+typedef struct { char** lines; char** outs; int n, k, t; } Job;
+static void* worker(void* a)
+{
+	Job* j = a;
+	SB s = {0, 0, 0};
+	int i;
+	for (i = j->t; i < j->n; i += j->k)
+	{
+		process_line(j->lines[i], &s);
+		j->outs[i] = strdup(s.p ? s.p : "");
+	}
+	free(s.p);
+	return 0;
+}
+
 int main(int argc, char** argv)
 {
 	char* line = 0;
 	size_t cap = 0;
 	ssize_t len;
 	SB s = {0, 0, 0};
-	(void)argc; (void)argv;
-	g_f = tmpfile();
-	g_w = tmpfile();
-	if (!g_f || !g_w) { perror("tmpfile"); return 5; }
+	int nthreads = 0;
+	if (argc >= 3 && !strcmp(argv[1], "--threads")) nthreads = atoi(argv[2]);
+	if (nthreads > 0)
+	{
+		char** lines = 0;
+		char** outs;
+		int n = 0, i;
+		pthread_t th[64];
+		Job jobs[64];
+		if (nthreads > 64) nthreads = 64;
+		while ((len = getline(&line, &cap, stdin)) > 0)
+		{
+			lines = realloc(lines, sizeof(char*) * (size_t)(n + 1));
+			lines[n++] = strdup(line);
+		}
+		outs = calloc((size_t)n + 1, sizeof(char*));
+		for (i = 0; i < nthreads; ++i)
+		{
+			jobs[i].lines = lines; jobs[i].outs = outs; jobs[i].n = n; jobs[i].k = nthreads; jobs[i].t = i;
+			pthread_create(&th[i], 0, worker, &jobs[i]);
+		}
+		for (i = 0; i < nthreads; ++i) pthread_join(th[i], 0);
+		for (i = 0; i < n; ++i) { puts(outs[i] ? outs[i] : ""); free(outs[i]); free(lines[i]); }
+		free(outs); free(lines); free(line);
+		return 0;
+	}
 	while ((len = getline(&line, &cap, stdin)) > 0)
 	{
-		Toks k;
-		char* p;
-		const char* kind;
-		int ntok = 0, captok = 64;
-		while (len > 0 && (line[len - 1] == '\n' || line[len - 1] == '\r')) line[--len] = 0;
-		k.t = malloc(sizeof(char*) * (size_t)captok);
-		for (p = strtok(line, " "); p; p = strtok(0, " "))
-		{
-			if (ntok == captok) { captok *= 2; k.t = realloc(k.t, sizeof(char*) * (size_t)captok); }
-			k.t[ntok++] = p;
-		}
-		k.n = ntok; k.i = 0;
-		s.n = 0;
-		sb_puts(&s, "");
 		vf_cap = 16777216;
-		g_full = 0;
-		if (ntok == 0) { puts(""); fflush(stdout); free(k.t); continue; }
-		kind = nx(&k);
-		/* optional prefixes */
-		while (!strncmp(kind, "cap=", 4) || !strcmp(kind, "full"))
-		{
-			if (kind[0] == 'c') vf_cap = (size_t)strtoul(kind + 4, 0, 10);
-			else g_full = 1;
-			kind = nx(&k);
-		}
-		if (!strcmp(kind, "c16")) sc_c16(&s, &k);
-		else if (!strcmp(kind, "c16d")) sc_c16d(&s, &k);
-		else if (!strcmp(kind, "r7")) sc_r7(&s, &k);
-		else if (!strcmp(kind, "strcmp")) sc_strcmp(&s, &k);
-		else if (!strcmp(kind, "strmk")) sc_strmk(&s, &k);
-		else if (!strcmp(kind, "objeq")) sc_objeq(&s, &k);
-		else if (!strcmp(kind, "u2i")) sc_conv(&s, &k, 1);
-		else if (!strcmp(kind, "i2u")) sc_conv(&s, &k, 0);
-		else if (!strcmp(kind, "errstr")) sc_errstr(&s, &k);
-		else if (!strcmp(kind, "va")) sc_va(&s, &k);
-		else if (!strcmp(kind, "varead")) sc_varead(&s, &k);
-		else if (!strcmp(kind, "md")) sc_md(&s, &k);
-		else if (!strcmp(kind, "rt")) sc_rt(&s, &k, 0);
-		else if (!strcmp(kind, "rtw")) sc_rt(&s, &k, 1);
-		else if (!strcmp(kind, "fr")) sc_fr(&s, &k, 0);
-		else if (!strcmp(kind, "frw")) sc_fr(&s, &k, 1);
-		else if (!strcmp(kind, "fw")) sc_fw(&s, &k);
-		else { fprintf(stderr, "harness: unknown scenario %s\n", kind); return 4; }
-		puts(s.p);
+		process_line(line, &s);
+		puts(s.p ? s.p : "");
 		fflush(stdout);
-		free(k.t);
 	}
 	free(line);
 	free(s.p);
